@@ -73,6 +73,7 @@ def run(
     shutil.rmtree(meta, ignore_errors=True)
     cmd = ["java", "-XX:+UseParallelGC", "-Xmx12g"]
     if os.environ.get("VERIF_SCRATCH"):
+        os.makedirs(os.environ["VERIF_SCRATCH"], exist_ok=True)
         cmd.append("-Djava.io.tmpdir=" + os.environ["VERIF_SCRATCH"])  # TLC unpacks its standard modules there
     cmd += java_opts or []
     cmd += ["-cp", JAR, "tlc2.TLC", "-config", cfgname, "-metadir", str(meta), "-noGenerateSpecTE"]
